@@ -82,12 +82,12 @@ type Interp struct {
 
 // Outcome of following one path.
 type Outcome struct {
-	Stop   *ssa.BasicBlock // the stop block reached (nil if a Return was reached)
-	From   *ssa.BasicBlock // predecessor through which Stop was entered
-	Ret    *ssa.Return
-	Env    map[ssa.Value]AVal
-	Panic  bool
-	Trace  []int
+	Stop  *ssa.BasicBlock // the stop block reached (nil if a Return was reached)
+	From  *ssa.BasicBlock // predecessor through which Stop was entered
+	Ret   *ssa.Return
+	Env   map[ssa.Value]AVal
+	Panic bool
+	Trace []int
 }
 
 func (ip *Interp) constVal(c *ssa.Const) AVal {
